@@ -3,14 +3,17 @@ import Mieru.Gen.Arith
 /-!
 Evaluates the REGENERATED definitions (Mieru.Gen.Arith) behind a line protocol so the harness can
 compare the translator's output with the real Go functions on the same inputs.
+Handler convention for `Mieru/GenDriver/<Topic>.lean` (auto-registered by bin/check, which generates
+GenMain.lean): `def Mieru.GenDriver.<Topic>.step : List String → Option String`, `none` = not my op.
 -/
+namespace Mieru.GenDriver.Arith
 open Mieru.Gen.Arith
 
 def optInt : Option Int → String
   | some v => s!"ok {v}"
   | none => "err"
 
-def step (toks : List String) : String :=
+def stepS (toks : List String) : String :=
   match toks with
   | ["maxFragmentSize", a, b, c] =>
     match a.toInt?, b.toInt?, c.toInt? with
@@ -38,11 +41,10 @@ def step (toks : List String) : String :=
     | _ => "bad-op"
   | _ => "bad-op"
 
-partial def loop (inp out : IO.FS.Stream) : IO Unit := do
-  let line ← inp.getLine
-  if line.isEmpty then return ()
-  out.putStrLn (step ((line.trimAscii.toString.splitOn " ").filter (· ≠ "")))
-  out.flush
-  loop inp out
 
-def main : IO Unit := do loop (← IO.getStdin) (← IO.getStdout)
+def step (toks : List String) : Option String :=
+  match stepS toks with
+  | "bad-op" => none
+  | r => some r
+
+end Mieru.GenDriver.Arith
